@@ -864,7 +864,11 @@ load_and_validate_field (DBusHeader     *header,
       string_validation_func = _dbus_validate_interface;
       bad_string_code = DBUS_INVALID_BAD_INTERFACE;
 
-      if (_dbus_string_equal_substring (&_dbus_local_interface_str,
+      if (_dbus_marshal_read_uint32 (value_str, value_pos,
+                                     _dbus_header_get_byte_order (header),
+                                     NULL) ==
+          (dbus_uint32_t) _dbus_string_get_length (&_dbus_local_interface_str) &&
+          _dbus_string_equal_substring (&_dbus_local_interface_str,
                                         0,
                                         _dbus_string_get_length (&_dbus_local_interface_str),
                                         value_str, str_data_pos))
@@ -893,7 +897,11 @@ load_and_validate_field (DBusHeader     *header,
       /* OBJECT_PATH was validated generically due to its type */
       string_validation_func = NULL;
 
-      if (_dbus_string_equal_substring (&_dbus_local_path_str,
+      if (_dbus_marshal_read_uint32 (value_str, value_pos,
+                                     _dbus_header_get_byte_order (header),
+                                     NULL) ==
+          (dbus_uint32_t) _dbus_string_get_length (&_dbus_local_path_str) &&
+          _dbus_string_equal_substring (&_dbus_local_path_str,
                                         0,
                                         _dbus_string_get_length (&_dbus_local_path_str),
                                         value_str, str_data_pos))
